@@ -47,6 +47,15 @@ struct TState {
     pending: String,
     /// the parked task never wants to be resumed (used for "never resumed" suspensions)
     frozen: bool,
+    /// the thread is inside a timed sleep of a polling loop of the code under test (`flush`, `end_all_streams`, ...): it goes on only
+    /// after some other thread has taken a step (value = number of steps granted when it went to sleep) -- or when nobody else can run
+    sleeping: Option<u64>,
+    /// consecutive times the sleeper was resumed although nobody else had run, and the write counter at the first of them
+    idle_wakes: u32,
+    idle_gw: u64,
+    /// times the sleeper was resumed while other threads could still run (bounded: beyond that its timer fires only when everybody else
+    /// is blocked, parked or done -- otherwise an unfair schedule could keep a polling loop and a task it wakes busy for ever)
+    early_wakes: u32,
 }
 
 pub struct Inner {
@@ -208,6 +217,10 @@ impl Sched {
                         blocked_at: None,
                         pending: String::new(),
                         frozen: false,
+                        sleeping: None,
+                        idle_wakes: 0,
+                        idle_gw: 0,
+                        early_wakes: 0,
                     })
                     .collect(),
                 current: None,
@@ -402,15 +415,42 @@ impl Sched {
                 g = self.cv.wait(g).unwrap();
             }
             let gw = g.global_writes;
+            let steps_now = g.steps;
             let mut runnable: Vec<usize> = vec![];
             for (i, th) in g.threads.iter().enumerate() {
                 let ok = match th.status {
-                    Status::Waiting => th.blocked_at.map(|b| gw > b).unwrap_or(true),
+                    Status::Waiting => th.blocked_at.map(|b| gw > b).unwrap_or(true) && th.sleeping.map(|s| steps_now > s && th.early_wakes < 2).unwrap_or(true),
                     Status::Parked => th.notified && !th.frozen,
                     _ => false,
                 };
                 if ok {
                     runnable.push(i);
+                }
+            }
+            if runnable.is_empty() {
+                // nobody but sleepers: their timers fire.  A sleeper that keeps waking up with nothing changed (no write by anybody since it
+                // first did) is a polling loop that will never end: it stays asleep, and the run ends as stalled
+                for (i, th) in g.threads.iter_mut().enumerate() {
+                    if th.status == Status::Waiting && th.sleeping.is_some() && th.blocked_at.is_none() {
+                        if th.idle_wakes == 0 {
+                            th.idle_gw = gw;
+                        }
+                        if th.idle_wakes >= 3 && th.idle_gw == gw {
+                            continue;
+                        }
+                        if th.idle_gw != gw {
+                            th.idle_wakes = 0;
+                            th.idle_gw = gw;
+                        }
+                        th.idle_wakes += 1;
+                        runnable.push(i);
+                    }
+                }
+            } else {
+                for th in g.threads.iter_mut() {
+                    if th.sleeping.is_some() && th.sleeping.map(|s| steps_now > s).unwrap_or(false) {
+                        th.idle_wakes = 0;
+                    }
                 }
             }
             if runnable.is_empty() {
@@ -563,6 +603,51 @@ impl Ctx {
         }
         g.threads[t].status = Status::Running;
         Ok(())
+    }
+
+    /// The calling thread is about to sleep inside a polling loop of the code under test (a `tokio::time::sleep` of `flush` / `end_stream` /
+    /// `end_all_streams`): a scheduling point after which the thread runs again only once some other thread has taken a step, or when
+    /// nobody else can run (the timer fires).  If the run is torn down meanwhile the OS thread is parked forever (the code under test
+    /// is never unwound).
+    pub fn sleep_point(&self) {
+        let sched = &self.sched;
+        let t = self.t;
+        let mut g = sched.inner.lock().unwrap();
+        if g.abort {
+            return;
+        }
+        let steps = g.steps;
+        g.threads[t].sleeping = Some(steps);
+        g.threads[t].status = Status::Waiting;
+        g.threads[t].pending = "sleep (polling loop)".into();
+        g.threads[t].window.clear();
+        g.threads[t].window_failed = false;
+        g.current = None;
+        sched.cv.notify_all();
+        loop {
+            g = sched.cv.wait(g).unwrap();
+            if g.abort {
+                g.threads[t].status = Status::Leaked;
+                sched.cv.notify_all();
+                drop(g);
+                loop {
+                    std::thread::park();
+                }
+            }
+            if g.current == Some(t) {
+                break;
+            }
+        }
+        g.threads[t].status = Status::Running;
+        g.threads[t].sleeping = None;
+        let others = g.threads.iter().enumerate().any(|(i, th)| i != t && match th.status {
+            Status::Waiting => th.blocked_at.is_none() && th.sleeping.is_none(),
+            Status::Parked => th.notified && !th.frozen,
+            _ => false,
+        });
+        if others {
+            g.threads[t].early_wakes += 1;
+        }
     }
 
     /// Parks forever (the task is never resumed within the run)
